@@ -171,6 +171,8 @@ def gen_spec(rng, fx, k, counters):
             n = rng.randint(1, 3)
             call.update(ds=[rng.randrange(nd) for _ in range(n)], skew=rng.random() < 0.8,
                         reps=[rng.choice(("f64", "f64", "i64", "f32", "list")) for _ in range(n)])
+            if okind == "imager" and m == "transform" and rng.random() < 0.5:
+                call["n_jobs"] = rng.choice((2, 2, 3))
         s["call"] = call
     return s
 
@@ -204,7 +206,8 @@ def gen_case(rng, tier):
             op["alt_rep"] = alt
         ops.append(op)
     return {"inputs": {"fixtures": fx, "clients": K}, "ops": ops,
-            "config": {"interleave": rng.choice(("scheduler", "scheduler", "as-listed"))}}
+            "config": {"interleave": rng.choice(("scheduler", "scheduler", "as-listed")),
+                       "parallel_mode": rng.choice(("proc", "thread-coop", "thread-preempt", "thread-preempt"))}}
 
 
 # ---------------------------------------------------------------- reference (pristine fork)
@@ -288,6 +291,12 @@ def run_case(case, sched):
     plt.close("all")
     matplotlib.rcdefaults()
     np.random.seed(12345)
+    from sim import simparallel
+    pmode = case["config"].get("parallel_mode", "thread-coop")
+    if pmode not in ("proc", "thread-coop", "thread-preempt"):
+        raise InvalidCase("parallel mode")
+    world = simparallel.World(sched, pmode, 8)
+    simparallel.install(world)
     objects = {}
     prefix = {}
     executed = 0
@@ -405,6 +414,7 @@ def run_case(case, sched):
                                             % (spec.get("rep"), alt, where), opi)
             sched.note("op%d %s %s" % (opi, site, out[0]))
     finally:
+        simparallel.uninstall()
         warnings.filters[:] = saved_filters
         warnings.showwarning = saved_show
         plt.close("all")
@@ -413,12 +423,14 @@ def run_case(case, sched):
         "key": hashlib.sha1(json.dumps([fx, case["ops"]], sort_keys=True, default=str).encode()).hexdigest()[:16],
         "nontrivial": K >= 2 and executed >= 8 and len(fns) >= 5 and env_count >= 2,
         "probes": dict(stats, distinct_entry_points_in_case=len(fns), **{"entry:" + f: 1 for f in fns}),
-        "faults": {"env_perturbations": env_count},
+        "faults": dict({"env_perturbations": env_count}, **{k_: v for k_, v in world.stats.items() if v}),
     }
 
 
 def cleanup():
     try:
+        from sim import simparallel
+        simparallel.uninstall()
         import matplotlib.pyplot as plt
         plt.close("all")
     except Exception:
